@@ -1,10 +1,10 @@
 package sym
 
 import (
-	"runtime"
 	"fmt"
 	"go/types"
 	"math"
+	"runtime"
 	"strconv"
 	"strings"
 
